@@ -155,3 +155,8 @@ func verifHistory(kind int) {
 
 func VerifH02HistorySlice() { verifHistory(0) }
 func VerifH02HistoryBTree() { verifHistory(1) }
+
+// Longer histories over the point operations only (Add/Remove/AddN/RemoveN):
+// same harness, separately registered so that it can carry its own bounds.
+func VerifH02PointOpsSlice() { verifHistory(0) }
+func VerifH02PointOpsBTree() { verifHistory(1) }
